@@ -94,7 +94,54 @@ def reuse_arrays_runs(ctx):
     return n, bad
 
 
+def rerun_object_runs(ctx):
+    """optimize() called a SECOND time on the same BADS object (a user continuing a run, a loop over restarts): boxes away from the origin, a
+    log-scaled box, a constraint.  Every target / constraint argument and the returned x of BOTH runs must lie in the user's box.
+    Returns (number of runs, first violation or None)."""
+    import logging
+    import numpy as np
+    from pybads import BADS
+    logging.disable(logging.CRITICAL)
+    bad, n = None, 0
+    boxes = [("shifted", [10.0, 10.0], [20.0, 20.0], [12.0, 12.0], [18.0, 18.0], [15.0, 13.0], None),
+             ("negative", [-300.0, -30.0], [-100.0, -10.0], [-250.0, -25.0], [-150.0, -15.0], [-200.0, -20.0], None),
+             ("log", [50.0, 50.0], [5.0e4, 5.0e4], [100.0, 100.0], [1.0e4, 1.0e4], [300.0, 2000.0], None),
+             ("shifted+cons", [10.0, 10.0], [20.0, 20.0], [12.0, 12.0], [18.0, 18.0], [15.0, 13.0], "sum")]
+    for name, lb, ub, plb, pub, x0, cname in boxes:
+        lo, hi = np.array(lb), np.array(ub)
+        pts = []
+
+        def fun(x, pts=pts):
+            x = np.array(x, dtype=float).reshape(-1)
+            pts.append(x.copy())
+            return float(np.sum((x - lo + 1.0) ** 2))           # optimum just below the box: the run presses against the lower bounds
+
+        def cons(X, pts=pts):
+            X = np.atleast_2d(np.asarray(X, dtype=float))
+            pts.extend(r.copy() for r in X)
+            return (np.sum(X, axis=1) > np.sum(hi) - 1.0).astype(float)
+        try:
+            b = BADS(fun, np.array(x0), np.array(lb), np.array(ub), np.array(plb), np.array(pub), non_box_cons=(cons if cname else None),
+                     options=dict(display="off", random_seed=5, max_fun_evals=35))
+            for k in (1, 2):
+                n += 1
+                r = b.optimize()
+                pts.append(np.asarray(r["x"], dtype=float).reshape(-1))
+                out = [p.tolist() for p in pts if np.any(p < lo) or np.any(p > hi) or np.any(np.isnan(p))]
+                if out and bad is None:
+                    bad = (f"optimize() call {k} on one BADS object ('{name}' box {lb} .. {ub}): {len(out)} target / constraint arguments or returned points "
+                           f"outside the box, e.g. {out[0]}")
+        except Exception as ex:
+            ctx.notes.append(f"second optimize() on the '{name}' box raised {type(ex).__name__}: {str(ex)[:120]} (not a C01 matter)")
+    logging.disable(logging.NOTSET)
+    return n, bad
+
+
 def tie(ctx, broken):
+    nrr, badrr = rerun_object_runs(ctx)
+    ctx.count(nrr, nrr)
+    if not ctx.oblige("second_optimize_on_one_object", "correspondence", badrr is None, str(badrr)):
+        ctx.violate("target-arg-outside", badrr, dict(kind="rerun_object"))
     nre, badre = reuse_arrays_runs(ctx)
     ctx.count(nre, nre)
     if not ctx.oblige("multi_start_with_reused_arrays", "correspondence", badre is None, str(badre)):
@@ -126,6 +173,10 @@ def replay(ctx, rp):
     if rp["replay"].get("kind") == "reuse_arrays":
         n, bad = reuse_arrays_runs(ctx)
         print("replay multi-start with re-used arrays:", bad or "every point inside the box")
+        return 1 if bad else 0
+    if rp["replay"].get("kind") == "rerun_object":
+        n, bad = rerun_object_runs(ctx)
+        print("replay second optimize() on one object:", bad or "every point inside the box")
         return 1 if bad else 0
     if str(rp.get("key", "")).startswith("grid:"):
         return G.replay_grid(ctx, rp)
